@@ -317,18 +317,29 @@ Definition api_q2gate (basis_nq nmaps : nat) (bid : option Z) : outcome :=
 (* ---------- qpd/decompose.py decompose_qpd_instructions ---------- *)
 Inductive dq_inst := DQ (basis nmaps : nat) (bid : option nat)   (* BaseQPDGate: basis handle (== class), len(basis.maps), basis_id *)
                    | DOther.
-(* map_ids: None = argument omitted; an ENTRY None is refused by the pre-validation (32107ac) *)
-Record dq_in := mkDq { dq_circ : list dq_inst; dq_ids : list (list nat); dq_maps : option (list (option Z)) }.
+(* map_ids: None = argument omitted; an ENTRY None is refused by the pre-validation (32107ac).
+   dq_two: the positions of the circuit that hold a TwoQubitQPDGate (read by the 50945eb guard) *)
+Record dq_in := mkDq { dq_circ : list dq_inst; dq_ids : list (list nat); dq_maps : option (list (option Z));
+                       dq_two : list nat }.
 
+(* _validate_qpd_instructions, in source order (7 raise sites) *)
+Section DqValidate.
+Variable two : list nat.
+Definition dq_is_two (k : nat) : bool := existsb (Nat.eqb k) two.
+Section Members.
+Variable pair : bool.           (* len(decomp_ids) == 2 *)
 Fixpoint dq_members (c : list dq_inst) (b0 : nat) (g : list nat) : outcome :=
   match g with
   | [] => Proceeds
   | k :: r => match nth_error c k with
-              | None => Crashed
-              | Some DOther => Refused
-              | Some (DQ b _ _) => if b =? b0 then dq_members c b0 r else Refused
+              | None => Crashed                                             (* IndexError *)
+              | Some DOther => Refused                                      (* not a QPD gate *)
+              | Some (DQ b _ _) => if negb (b =? b0) then Refused           (* bases differ *)
+                                   else if pair && dq_is_two k then Refused (* TwoQubitQPDGate inside a pair *)
+                                   else dq_members c b0 r
               end
   end.
+End Members.
 Definition dq_group (c : list dq_inst) (g : list nat) : outcome :=
   if negb ((length g =? 1) || (length g =? 2)) then Refused else
   match g with
@@ -336,16 +347,24 @@ Definition dq_group (c : list dq_inst) (g : list nat) : outcome :=
   | k0 :: _ => match nth_error c k0 with
                | None => Crashed
                | Some DOther => Refused
-               | Some (DQ b0 _ _) => dq_members c b0 g
+               | Some (DQ b0 _ _) => dq_members (length g =? 2) c b0 g
                end
   end.
 Fixpoint dq_groups (c : list dq_inst) (ids : list (list nat)) : outcome :=
   match ids with [] => Proceeds | g :: r => andthen (dq_group c g) (dq_groups c r) end.
+End DqValidate.
 Definition dq_is_qpd (x : dq_inst) : bool := match x with DQ _ _ _ => true | DOther => false end.
+Fixpoint has_dup (l : list nat) : bool :=
+  match l with [] => false | x :: r => existsb (Nat.eqb x) r || has_dup r end.
+(* len(set(flat_ids)) != len(flat_ids) *)
+Definition dq_repeated (ids : list (list nat)) : bool := has_dup (concat ids).
 Definition dq_total_mismatch (c : list dq_inst) (ids : list (list nat)) : bool :=
   negb (length (filter dq_is_qpd c) =? list_sum (map (@length nat) ids)).
-Definition api_validate_qpd (c : list dq_inst) (ids : list (list nat)) : outcome :=
-  andthen (dq_groups c ids) (refuse_if (dq_total_mismatch c ids)).
+Definition api_validate_qpd (two : list nat) (c : list dq_inst) (ids : list (list nat)) : outcome :=
+  andthen (dq_groups two c ids)
+ (andthen (refuse_if (dq_repeated ids))
+          (refuse_if (dq_total_mismatch c ids))).
+Definition dq_validate (i : dq_in) : outcome := api_validate_qpd (dq_two i) (dq_circ i) (dq_ids i).
 
 (* first pass (F7 repair): every map id against the basis of every gate it will be assigned to *)
 Definition map_ok (m : option Z) (n : nat) : bool := match m with Some z => in_range z n | None => false end.
@@ -370,7 +389,7 @@ Definition dq_stage3 (c : list dq_inst) : outcome * list dq_inst :=
    at that point: nothing has been rewritten yet) *)
 Definition dq_run (i : dq_in) : outcome * list dq_inst :=
   let c := dq_circ i in
-  match api_validate_qpd c (dq_ids i) with
+  match dq_validate i with
   | Ok _ =>
       match dq_maps i with
       | None => dq_stage3 c
@@ -402,7 +421,7 @@ Fixpoint dq_interleaved (c : list dq_inst) (gm : list (list nat * option Z)) : o
   end.
 Definition dq_run_interleaved (i : dq_in) : outcome * list dq_inst :=
   let c := dq_circ i in
-  match api_validate_qpd c (dq_ids i) with
+  match dq_validate i with
   | Ok _ =>
       match dq_maps i with
       | None => (Proceeds, c)
